@@ -83,6 +83,7 @@ theorem apply_fuel_nf {N : Nat} {s : State} (hc : Clean s) (e : Ev) (he : e.enab
   | throw i x => simp [Ev.orderly] at ho
   | interrupt i x => simp [Ev.orderly] at ho
   | reinsert i ps => simp [Ev.orderly] at ho
+  | acquireFails k => simp [Ev.orderly] at ho
   | setEv ev => rfl
 
 /-! ### transitions that do not queue a waiter -/
